@@ -23,7 +23,8 @@ import (
 )
 
 const rule = "schedules = random walks over the model's enabled steps (enqueue / park / roll-over / TTL expiry / clock tick, " +
-	"natural, delayed-park, late-roll-over and mixed styles) replayed on the real queue + corpus witnesses; " +
+	"natural, delayed-park, late-roll-over and mixed styles) + ALL schedules of a fixed length over a small step alphabet " +
+	"(quota 1 and 2, <= 3-4 requests; length 6 quick / 9 thorough) + a malformed stream, replayed on the real queue, + corpus witnesses; " +
 	"non-trivial = at least one request was queued and at least one roll-over ran; distinct by (ops, answers)"
 
 type rq struct {
